@@ -310,9 +310,23 @@ class TableAnalysis:
                         ta.rows.append(dict(key=self.key, kind='raise', exc=o.value, facts=o.facts, line=o.line, stream=bool(o.env.get('$stream'))))
                 return outs
         self.TEXT = TEXT
+        # state carried from one command to the next: a local set to a constant in front of the loop and stored again while a command
+        # is handled.  What it holds when a command arrives depends on the commands before it: its initial constant, or any integer.
+        pre_ = self.f.node.body[:self.f.node.body.index(self.loop)]
+        stored_in_rest = {n_.id for st_ in rest for n_ in ast.walk(st_) if isinstance(n_, ast.Name) and isinstance(n_.ctx, ast.Store)}
+        carried = {}
+        for st_ in pre_:
+            if isinstance(st_, ast.Assign) and len(st_.targets) == 1 and isinstance(st_.targets[0], ast.Name) and isinstance(st_.value, ast.Constant) \
+                    and st_.targets[0].id in stored_in_rest and st_.targets[0].id not in names:
+                carried[st_.targets[0].id] = st_.value.value
+        import itertools as _it
+        carried_worlds = [dict(zip(carried, combo)) for combo in _it.product(*[[('init', v_), ('any', None)] for v_ in carried.values()])] or [{}]
         for letter in cmd_role[0]['letters']:
+          for cw in carried_worlds:
             for has_range in (False, True):
                 env = {}
+                for cn_, (kind_, v_) in cw.items():
+                    env[cn_] = (Aff.const(v_) if isinstance(v_, int) and not isinstance(v_, bool) else v_) if kind_ == 'init' else Aff.var('carried ' + cn_)
                 for nm, role in zip(names, self.roles):
                     if role['kind'] == 'cmd':
                         env[nm] = letter
